@@ -22,8 +22,15 @@ let arr_of_tm (t : tmrec) : int array =
 (* the oracle sees a C string: cut at the first NUL *)
 let cstr (s : string) : string = match String.index_opt s '\000' with Some i -> String.sub s 0 i | None -> s
 
+(* finding F12: FormatTM gives up when a run's rendering needs 16x the run's length or more; the model
+   (FormatImpl.format_tm) emulates that, the specification (render as strftime does) does not.  The
+   oracle records when a NON-EMPTY rendering was that long, so that the case can be tagged. *)
+let cap_hit = ref false
 let strftime_o (fmt : z list) (tm : tmrec) : z list =
-  bytes_of_string (c_strftime (cstr (string_of_bytes fmt)) (arr_of_tm tm))
+  let f = cstr (string_of_bytes fmt) in
+  let r = c_strftime f (arr_of_tm tm) in
+  if String.length r > 0 && String.length r + 1 > 16 * String.length f then cap_hit := true;
+  bytes_of_string r
 let strptime_o (data : z list) (fmt : z list) (tm : tmrec) : (z list * tmrec) option =
   let ds = cstr (string_of_bytes data) in
   let r = c_strptime ds (cstr (string_of_bytes fmt)) (arr_of_tm tm) in
@@ -108,6 +115,7 @@ let run_case (a : string array) : string =
   match a.(0) with
   | "fmt" ->
     (* fmt <zid> <fmt hex> <t> <fs> *)
+    cap_hit := false;
     let e = get a.(1) in
     let fmt = bytes_of_hex a.(2) in let t = zi a 3 in let fs = zi a 4 in
     let m = with_model e (fun z ->
@@ -119,8 +127,9 @@ let run_case (a : string array) : string =
          | None -> None)
       | _ -> None) in
     let nonneg = (match fs with Zneg _ -> false | _ -> true) in
-    out m (match sp with Some b -> hex_of_bytes b | None -> "undef")
-      (sp <> None && clean_fmt fmt && in64 t && nonneg && (Z.compare fs e15 = Lt))
+    let r = out m (match sp with Some b -> hex_of_bytes b | None -> "undef")
+      (sp <> None && clean_fmt fmt && in64 t && nonneg && (Z.compare fs e15 = Lt)) in
+    if !cap_hit then r ^ " ; K F12" else r
   | "parse" | "fp" ->
     (* parse <zid> <fmt hex> <input hex> [EXP t fs | REJ]      (C09)
        fp    <zid> <fmt hex> <t> <fs> [<parse zid>]            (C07: format then parse) *)
